@@ -17,8 +17,8 @@ using namespace wl;
 
 namespace {
 
-enum Mode { kCorrect = 0, kTruncated, kSubstituted, kExtended, kEmpty, kRefuse, kGarbage, kModeCount };
-const char* mode_name[] = {"correct", "truncated", "substituted", "extended", "empty", "refuse", "garbage"};
+enum Mode { kCorrect = 0, kTruncated, kSubstituted, kExtended, kEmpty, kRefuse, kGarbage, kSubstitutedGround, kModeCount };
+const char* mode_name[] = {"correct", "truncated", "substituted", "extended", "empty", "refuse", "garbage", "substituted_hash_prefix_ground"};
 
 std::vector<std::uint8_t> variant_of(const std::vector<std::uint8_t>& p, int mode) {
     switch (mode) {
@@ -27,6 +27,20 @@ std::vector<std::uint8_t> variant_of(const std::vector<std::uint8_t>& p, int mod
         case kSubstituted: { auto q = p; for (std::size_t i = 0; i < q.size(); i += 7) q[i] ^= 0x5a; if (q == p && !q.empty()) q[0] ^= 1; return q; }
         case kExtended: { auto q = p; q.push_back(0x42); q.push_back(0x43); return q; }
         case kEmpty: return {};
+        case kSubstitutedGround: {
+            // what an adversary who can afford a few hundred hash evaluations sends: other bytes of the same length whose SHA-256
+            // starts with the same byte as the genuine payload's (a digest comparison that stops early accepts them)
+            const auto want = en::crypto::Sha256::digest(std::span<const std::uint8_t>(p))[0];
+            auto q = p;
+            if (q.empty()) q.push_back(0);
+            for (std::uint32_t ctr = 1; ctr < 200000; ++ctr) {
+                q[0] = static_cast<std::uint8_t>(p.empty() ? ctr : p[0] ^ (ctr & 0xff));
+                if (q.size() > 1) q[q.size() - 1] = static_cast<std::uint8_t>(p[p.size() - 1] ^ ((ctr >> 8) & 0xff));
+                if (q.size() > 2) q[q.size() / 2] = static_cast<std::uint8_t>(p[p.size() / 2] ^ ((ctr >> 16) & 0xff) ^ 0x80);
+                if (q != p && en::crypto::Sha256::digest(std::span<const std::uint8_t>(q))[0] == want) return q;
+            }
+            return q;
+        }
         default: { std::vector<std::uint8_t> q(p.size() + 3); for (std::size_t i = 0; i < q.size(); ++i) q[i] = static_cast<std::uint8_t>(i * 31 + 7); return q; }
     }
 }
@@ -209,9 +223,11 @@ struct Published {
     std::vector<std::uint8_t> plain;
 };
 
-Published publish(Daemon& d, Actor& client, std::uint64_t salt, std::size_t size, const std::string& filename_header = "") {
+Published publish(Daemon& d, Actor& client, std::uint64_t salt, std::size_t size, const std::string& filename_header = "", bool hash_starts_with_zero = false) {
     Published pub;
-    const auto pl = make_payload(size, 52000 + salt);
+    auto pl = make_payload(size, 52000 + salt);
+    // optionally a payload whose SHA-256 starts with a zero byte (one stored file in 256 has one)
+    for (std::uint64_t g = 1; hash_starts_with_zero && en::crypto::Sha256::digest(std::span<const std::uint8_t>(pl))[0] != 0 && g < 100000; ++g) pl = make_payload(size, 52000 + salt + 1000003 * g);
     pub.plain.assign(pl.begin(), pl.end());
     std::vector<std::pair<std::string, std::string>> f{{"COMMAND", "STORE"}, {"TTL", "900"}};
     std::string sanitized;
@@ -244,6 +260,8 @@ Plan gen_c30(sk::Rng& r, Tier) {
     p.knobs["relay_shape"] = static_cast<std::int64_t>(r.below(2));
     p.knobs["dest"] = r.pick<std::int64_t>({0, 0, 0, 2, 2, 2, 1});  // 0 new file, 1 existing file (never overwritten without a tty), 2 directory
     p.knobs["bits"] = r.pick<std::int64_t>({0, 0, 4});
+    p.knobs["zero_hash"] = r.chance(1, 3);   // the stored payload's SHA-256 starts with 0x00
+    if (p.knobs["zero_hash"] && p.knobs["size"] > 5000) p.knobs["size"] = 5000;
     Op op; op.k = "fetch"; p.ops.push_back(op);
     if (r.chance(1, 3)) p.ops.push_back(op);
     return p;
@@ -257,8 +275,9 @@ void exec_c30(const Plan& p, Ctx& ctx) {
     if (!d.wait_ready()) { ctx.violate("C30.setup_failed", "daemon did not answer PING: " + sk::info(d.pid).exit_detail); d.stop(); return; }
     Actor client;
     client.start("ctl-client", d.host);
-    auto pub = publish(d, client, 1, static_cast<std::size_t>(p.knob("size", 700)));
+    auto pub = publish(d, client, 1, static_cast<std::size_t>(p.knob("size", 700)), "", p.knob("zero_hash", 0) != 0);
     if (!pub.ok) { ctx.violate("C30.setup_failed", "STORE failed"); client.shutdown(); d.stop(); return; }
+    if (p.knob("zero_hash", 0)) ctx.boundary("payload_hash_starts_with_zero_byte");
     Hostile h;
     h.transport_mode = static_cast<int>(std::max<std::int64_t>(0, p.knob("transport", -1)));
     h.relay_mode = static_cast<int>(std::max<std::int64_t>(0, p.knob("relay", -1)));
@@ -356,7 +375,7 @@ void exec_c30(const Plan& p, Ctx& ctx) {
 Scenario make_c30() {
     Scenario s;
     s.id = "C30"; s.world = "W4"; s.level = "exploration";
-    s.technique = "deterministic simulation: the real `eph fetch` main as a simulated process; the manifest (issued by the real daemon, then re-pointed) advertises any subset of transport, relay, control and control:// fallback endpoints, each served by a scripted endpoint that knows the chunk key and returns correct, truncated, substituted, extended, empty, refused or garbage bytes; the local daemon is the real one, absent, or scripted; afterwards every file under the destination must equal the stored payload";
+    s.technique = "deterministic simulation: the real `eph fetch` main as a simulated process; the manifest (issued by the real daemon, then re-pointed) advertises any subset of transport, relay, control and control:// fallback endpoints, each served by a scripted endpoint that knows the chunk key and returns correct, truncated, substituted, substituted-with-a-ground-hash-prefix, extended, empty, refused or garbage bytes (in a third of the runs the stored payload's SHA-256 starts with a zero byte); the local daemon is the real one, absent, or scripted; afterwards every file under the destination must equal the stored payload";
     s.real_components = {"src/main.cpp fetch path (real main(): attempt_transport_hint, attempt_control_hint, fallback, local daemon, finalize_fetch)", "ControlClient", "protocol codecs, KeyExchange, ChaCha20, Shamir", "the real daemon main (publisher of the manifest, honest local daemon, honest transport endpoint)"};
     s.stub_components = {"OS seams (fibers, simulated TCP, clock, entropy, file seam)", "hostile endpoints are scripted"};
     s.assumptions = {"the manifest handed to `eph fetch` decodes; its chunk_hash is the content hash the statement refers to"};
